@@ -115,7 +115,15 @@ let handle line =
       let opt_h s = if s = "N" then None else Some (nat_of_int (int_of_string s)) in
       let opt_k s = if s = "-" then None else Some (nat_of_int (int_of_string s)) in
       let exts_plus s = if s = "-" then [] else List.map str_of_hex (String.split_on_char '+' s) in
-      let parse_op o = match String.split_on_char ',' o with
+      let strip_enc o =
+        (* optional trailing encoding field on non-output entry points: the model (after D23) ignores it *)
+        let fs = String.split_on_char ',' o in
+        let n = List.length fs in
+        let want = match fs with
+          | ("M" | "Md") :: _ -> 9 | ("m" | "md") :: _ -> 9 | ("V" | "Vd") :: _ -> 4 | ("v" | "vd") :: _ -> 4
+          | ("W" | "Wd") :: _ -> 7 | ("w" | "wd") :: _ -> 7 | _ -> n in
+        if n = want + 1 then List.filteri (fun i _ -> i < want) fs else fs in
+      let parse_op o = match strip_enc o with
         | ["R"; n] -> PNewRoot (str_of_hex n)
         | ["A"; h; n] -> PAdd (nat_of_int (int_of_string h), str_of_hex n)
         | [("O" | "Od"); h; e; d; ld; li; md; mi; exts] ->
